@@ -470,6 +470,28 @@ mod tests {
     }
 
     #[test]
+    fn test_encryption_round_trip_empty_payload() {
+        // An empty payload encrypts to the 15-byte header plus the inner mode byte.
+        let key_name = 0xDEAD_BEEF_CAFE_BABE;
+        let key = [0x12; 16];
+        let mut key_store = TactKeyStore::new();
+        key_store.add(TactKey::new(key_name, key));
+
+        for spec in [
+            EncryptionSpec::salsa20(key_name, [0xAA, 0xBB, 0xCC, 0xDD]),
+            EncryptionSpec::arc4(key_name, [0xAA, 0xBB, 0xCC, 0xDD]),
+        ] {
+            let inner = [CompressionMode::None.as_byte()];
+            let encrypted =
+                encrypt_chunk_with_key(&inner, spec, &key, 0).expect("Encryption should succeed");
+            assert_eq!(encrypted.len(), 16);
+            let decrypted = decrypt_chunk_with_keys(&encrypted, &key_store, 0)
+                .expect("Decryption of an empty payload should succeed");
+            assert!(decrypted.is_empty());
+        }
+    }
+
+    #[test]
     fn test_decrypt_malformed_encrypted_chunk() {
         let key_store = TactKeyStore::new();
 
@@ -750,9 +772,12 @@ pub fn decrypt_chunk_with_keys(
     key_store: &TactKeyStore,
     block_index: usize,
 ) -> BlteResult<Vec<u8>> {
-    if data.len() < 17 {
+    // Smallest encrypted chunk body (the 0x45 mode byte is already stripped):
+    // key_name_size(1) + key_name(8) + iv_size(1) + iv(4) + type(1) = 15 header
+    // bytes plus one byte of ciphertext (the inner mode byte of an empty payload).
+    if data.len() < 16 {
         return Err(BlteError::CompressionError(format!(
-            "Encrypted chunk too short: {} bytes (minimum 17)",
+            "Encrypted chunk too short: {} bytes (minimum 16)",
             data.len()
         )));
     }
